@@ -115,6 +115,9 @@ var vC06Stmts = []string{
 	"delete where key >= '' limit A, B",
 	"put (str(A / B), 'v')",
 	"select key, int_list(value, 'x', 1.5)[A] where key >= ''",
+	"select key, A / len(value), A / strlen(value), A / len(split(value, ',')) where key >= ''",
+	"select key where 6 / len(value) > A | A / (len(value) - B) = 1",
+	"select key, int(value) / len(json(value)['nope']), 1 / len('') where key >= ''",
 	"select key, str(json(value)), int(json(value)), upper(json(value)['x']) where key >= ''",
 }
 
@@ -235,4 +238,68 @@ func VH_C06_FUNC(fi, nargs, vec int) {
 		f.BodyVec([]KVPair{kv, kv}, args, NewExecuteCtx())
 	}
 	vCover("called")
+}
+
+// vNumOfKind: a number of every Go dynamic kind the evaluators convert from, value from {0,1,-1,7}
+// (symbolic choice for the kinds the engine models symbolically, concrete fork otherwise).
+const vNumNumKinds = 14
+
+func vNumOfKind(kind int, tag string) any {
+	pick := vChoose(tag+"v", 4)
+	v := []int64{0, 1, -1, 7}[pick]
+	switch kind {
+	case 0:
+		return int(v)
+	case 1:
+		return int8(v)
+	case 2:
+		return int16(v)
+	case 3:
+		return int32(v)
+	case 4:
+		return v
+	case 5:
+		return uint(v & 0xff)
+	case 6:
+		return uint8(v & 0xff)
+	case 7:
+		return uint16(v & 0xff)
+	case 8:
+		return uint32(v & 0xff)
+	case 9:
+		return uint64(v & 0xff)
+	case 10:
+		return float32(v)
+	case 11:
+		return float64(v) / 2
+	case 12:
+		return []byte("x")
+	}
+	return nil
+}
+
+// VH_C06_MATH: arithmetic and comparison helpers on operands of every numeric dynamic kind
+// (zero divisors included) return a value or an error, never panic.
+func VH_C06_MATH(lk, rk int) {
+	l := vNumOfKind(lk, "l")
+	r := vNumOfKind(rk, "r")
+	stub := &vStubExpr{r, TNUMBER}
+	for _, op := range []byte{'+', '-', '*', '/'} {
+		executeMathOp(l, r, op, stub)
+	}
+	for _, op := range []string{">", ">=", "<", "<=", "="} {
+		execNumberCompare(l, r, op)
+		execStringCompare(l, r, op)
+	}
+	kv := NewKVP([]byte("k"), []byte("v"))
+	for _, o := range []Operator{Add, Sub, Mul, Div, Eq, NotEq, Gt, Lte, In, Between} {
+		var right Expression = stub
+		if o == In || o == Between {
+			right = &ListExpr{List: []Expression{stub, stub}}
+		}
+		e := &BinaryOpExpr{Op: o, Left: &vStubExpr{l, TNUMBER}, Right: right}
+		e.Execute(kv, NewExecuteCtx())
+		e.ExecuteBatch([]KVPair{kv, kv}, NewExecuteCtx())
+	}
+	vCover("evaluated")
 }
